@@ -23,6 +23,7 @@ type workload struct {
 	Seed  uint64 // generator seed for prog/scene/rand
 	Audio bool
 	Video bool
+	Debug bool // Config.DebugLCD (sprites and window drawn in colour)
 }
 
 func (w workload) store(sc *engine.Scenario, pfx string) {
@@ -39,11 +40,14 @@ func (w workload) store(sc *engine.Scenario, pfx string) {
 	}
 	sc.SetP(pfx+"audio", b(w.Audio))
 	sc.SetP(pfx+"video", b(w.Video))
+	if w.Debug {
+		sc.SetP(pfx+"debuglcd", 1)
+	}
 }
 
 func loadWorkload(sc *engine.Scenario, pfx string) workload {
 	return workload{Kind: sc.Str(pfx + "wl"), ROM: sc.Str(pfx + "rom"), Seed: uint64(sc.P(pfx+"wseed", 1)),
-		Audio: sc.P(pfx+"audio", 0) != 0, Video: sc.P(pfx+"video", 0) != 0}
+		Audio: sc.P(pfx+"audio", 0) != 0, Video: sc.P(pfx+"video", 0) != 0, Debug: sc.P(pfx+"debuglcd", 0) != 0}
 }
 
 // ROMs that run under the simulator without relying on anything outside the emulator.
@@ -102,7 +106,7 @@ func newFree(w workload, chanCap int, res *engine.Result) *machine.Machine {
 		res.Harness = "cart: " + err.Error()
 		return nil
 	}
-	m, pi := machine.New(img, false, machine.Options{Audio: w.Audio, Video: w.Video, Serial: true, ChanCap: chanCap})
+	m, pi := machine.New(img, false, machine.Options{Audio: w.Audio, Video: w.Video, Serial: true, ChanCap: chanCap, DebugLCD: w.Debug})
 	if pi != nil {
 		res.Harness = fmt.Sprintf("construction panicked for a well-formed cartridge: %s (%s)", pi.Value, pi.Site)
 		return nil
